@@ -107,6 +107,19 @@ def value_universe(chk):
                 continue
     for i in range(150 if q else 4000):
         vals.append(V.random_value(rng, depth=rng.choice([2, 3, 4, 5]), leaves=LEAVES))
+    # long flat containers (the printers switch strategy for long sequences: always-broken above ~50 elements,
+    # truncation above max_seq_len = 1000): every leaf kind must survive inside them too
+    hashable = [l for l in LEAVES if not (isinstance(l, float) and l != l)]
+    for n in (51, 52, 130, 1000):
+        seq = [LEAVES[i % len(LEAVES)] if i % 3 else i for i in range(n)]
+        hs = [hashable[i % len(hashable)] if i % 3 else i for i in range(n)]
+        vals.append(seq)
+        vals.append(tuple(seq))
+        vals.append([seq[:n // 2], tuple(seq[n // 2:])])
+        vals.append(set(hs))
+        vals.append(frozenset(hs))
+        vals.append({(h if i % 2 else (i, h)): seq[i] for i, h in enumerate(hs)})
+    vals.append([float('inf')] * 51 + [float('nan'), float('-inf'), -0.0])
     # the documented counter-example region: nesting so deep that no width is left
     for leaf in ('', b'', 'a', 'word ' * 5):
         v = leaf
@@ -308,6 +321,24 @@ def printers_binding(chk, vals, msls=(1000,), name='printers', per_value=None):
     rng = chk.rng
     cases = []
     meta = {}
+    def small(v, budget=[0]):
+        # the model is a functional program run by TLC: keep the documents it has to lay out small
+        n = [0]
+
+        def walk(x):
+            n[0] += 1
+            if n[0] > 120:
+                return
+            if isinstance(x, (list, tuple, set, frozenset)):
+                for y in x:
+                    walk(y)
+            elif isinstance(x, dict):
+                for k, y in x.items():
+                    walk(k)
+                    walk(y)
+        walk(v)
+        return n[0] <= 120
+    vals = [v for v in vals if small(v)]
     pool = vals if len(vals) < (1500 if q else 20000) else rng.sample(vals, 1500 if q else 20000)
     for v in pool:
         for _ in range(per_value or (2 if q else 4)):
